@@ -245,7 +245,7 @@ impl Rig {
                 let in_slot = oc.live_service_slots().iter().any(|(_, id)| id.cookie.0 == cookie);
                 let obj_live = oc.live_object_cookies().contains(&obj_cookie);
                 let gone = owner_stopped || !in_slot || !obj_live || board.destroyed_svcs.contains(&cookie) || board.destroyed_objs.contains(&obj_cookie);
-                let held = oc.held.borrow().iter().any(|(_, n)| *n == nonce);
+                let held = oc.held.borrow().iter().any(|(_, n)| *n == nonce) || oc.awaiting_aborted.borrow().contains(&nonce);
                 let must = gone || (served.contains(&cookie) && !held);
                 if !must {
                     w.count("call:legitimately-pending");
@@ -297,6 +297,31 @@ impl Rig {
                     if sent > received && senders_alive {
                         return Err(fail("pending-stream:next_item-with-items-sent", self.detail(&format!("at quiescence task t{} waits in next_item on channel {} although {} items were sent and only {} received", t.id, cookie, sent, received))));
                     }
+                }
+            }
+            Aux::Aborted(nonce) => {
+                // the caller's application dropped the pending reply: with both sides on >= 1.16
+                // the abort reaches the callee, whose aborted() must have resolved by now - unless
+                // the call had been answered already (service or object torn down: the promise
+                // may come out of the destroyed service's queue), then the drop aborts nothing
+                let board = w.board.borrow();
+                if let Some((caller, cookie)) = board.aborted_by_caller.get(&nonce).copied() {
+                    let new = |c: usize| !matches!(w.clients[c].proto, Proto::V14 | Proto::Capped(15));
+                    let svc_intact = match board.svc_owner.get(&cookie).copied() {
+                        Some((owner, obj_cookie)) => {
+                            let oc = &w.clients[owner];
+                            owner == t.client
+                                && oc.live_service_slots().iter().any(|(_, id)| id.cookie.0 == cookie)
+                                && oc.live_object_cookies().contains(&obj_cookie)
+                                && !board.destroyed_svcs.contains(&cookie)
+                                && !board.destroyed_objs.contains(&obj_cookie)
+                        }
+                        None => false,
+                    };
+                    if alive(caller) && new(caller) && new(t.client) && svc_intact {
+                        return Err(fail("pending-stream:promise-aborted-after-caller-aborted", self.detail(&format!("at quiescence task t{} still waits in Promise::aborted() for call {} although the caller (c{}) has aborted it", t.id, nonce, caller))));
+                    }
+                    w.count("promise:abort-watch-not-decidable");
                 }
             }
             Aux::Lifetime(lt) => {
